@@ -58,6 +58,19 @@ def make_file(r, layouts, expanded, enc, blocked, trailer=True, nrows=None):
         row[19:27] = t
         row[243:246] = subs[t]
         rows.append(''.join(row))
+    twice = None
+    if r.random() < 0.5:
+        # one table listed under a second sub id as well (its rows use both)
+        twice = r.choice(list(layouts))
+        s2 = '%03d' % r.randrange(1000)
+        while s2 in subs.values():
+            s2 = '%03d' % r.randrange(1000)
+        row = list(('%-300s' % ('2024002IDX' + twice[-4:])))
+        row[11:19] = 'IP0000T1'
+        row[19:27] = twice
+        row[243:246] = s2
+        rows.append(''.join(row))
+        subs2 = s2
     r.shuffle(rows)
     if r.random() < 0.3:
         rows.insert(r.randrange(len(rows) + 1), 'HEADER RECORD' + ' ' * 30)
@@ -73,7 +86,7 @@ def make_file(r, layouts, expanded, enc, blocked, trailer=True, nrows=None):
             if expanded:
                 data.append(ts10 + act + t + body)
             else:
-                data.append(ts10[:7] + act + subs[t] + body)
+                data.append(ts10[:7] + act + (subs2 if t == twice and i % 2 else subs[t]) + body)
     r.shuffle(data)
     if r.random() < 0.5:
         # trailer rows of data tables (they are not the index trailer)
